@@ -149,6 +149,26 @@ func targets() []*target {
 				"(as_LWs_of_LogWriter : logwriter -> option (list member))", "(as_LevelSettable_of_LogWriter : logwriter -> option wid)",
 				"(f_findWriter : Z -> logwriter)", "(wres : nat -> Z * bool)", "(lvl : Z)", "(msg : bytes)", "(tr_ : list wevent)", "(k_ : nat)"},
 			result: "po_result", final: "(PoReturn tr_ k_)"},
+
+		// ---- level names (C17; C06 and C09 print them) ----
+		{pkg: slogPkg, recv: "Level", fn: "String", coq: "level_string", file: "LevelNames", strict: true, fallback: "LevelRef.level_string_ref",
+			params: []string{"(m_levelToString : list (Z * bytes))", "(level : Z)"}, result: "bytes", final: "(@nil byte)"},
+		// None = the call panics (length outside 1..5, or a slice / Repeat out of range)
+		{pkg: slogPkg, recv: "Level", fn: "ShortTag", coq: "short_tag", file: "LevelNames", strict: true, fallback: "LevelRef.short_tag_ref",
+			comment: "(None = the call panics)", panicT: "None", retfmt: "Some (%s)",
+			calls:  map[string]callSpec{"Level.String": {pure: "level_string m_levelToString %r"}},
+			params: []string{"(m_shortTagMap : list (Z * list (Z * bytes)))", "(m_levelToString : list (Z * bytes))", "(level : Z)", "(length_ : Z)"},
+			result: "option bytes", final: "None"},
+		// the warning about an unknown name is an event of the trace tr_; the error value is abstracted to
+		// nil / non-nil (option unit)
+		{pkg: slogPkg, recv: "", fn: "ParseLevel", coq: "parse_level", file: "LevelNames", strict: true, fallback: "LevelRef.parse_level_ref",
+			comment: "(returns (level, err, trace))", tymap: map[string]string{"error": "option unit"}, effects: []string{"tr_"},
+			calls: map[string]callSpec{
+				"fmt.Errorf":      {pure: "Some tt"},
+				"defaultLog.Warn": {ev: "EvWarnUnknown %2"},
+			},
+			params: []string{"(m_stringToLevel : list (bytes * Z))", "(lvl : bytes)", "(tr_ : list lvl_event)"},
+			result: "Z * option unit * list lvl_event", final: "(0, None, tr_)"},
 	}
 }
 
@@ -164,6 +184,7 @@ var genFiles = [][2]string{
 	{"Decisions", "Require Import Verif.Model.Base Verif.Model.Decision Verif.Model.DecisionRef Verif.Model.Level."},
 	{"Routing", "Require Import Verif.Model.Base Verif.Model.Decision Verif.Model.GoSem Verif.Model.Writers Verif.Model.GenRef."},
 	{"Delivery", "Require Import Verif.Model.Base Verif.Model.Decision Verif.Model.GoSem Verif.Model.Writers Verif.Model.GenRef."},
+	{"LevelNames", "Require Import Verif.Model.Base Verif.Model.Decision Verif.Model.Dec Verif.Model.GoSem Verif.Model.LevelRef."},
 }
 
 func genDecisions(file, require string) string {
